@@ -819,3 +819,37 @@ def rule_empty_message_is_not_the_end(ctx, rule='C12.m'):
                         'the connection is over and every stream is torn down' % (
                             ast.unparse(bad[0]), bad[1]))
     rep.require(rule, 'feeders of message transports', n, 7)
+
+
+def rule_termination_event_signalled(ctx, rule='C11.k'):
+    """The QUIC protocol object learns about the end of the connection as an event (`ConnectionTerminated`) and is the
+    only one who can tell the transport's listener: the branch that recognises the event puts the end-of-connection
+    marker into its queue unconditionally - whatever the error code or reason, an orderly close included - as a direct
+    statement of that branch."""
+    rep = ctx.report
+    repo = ctx.repo
+    exc_names = _exception_classes(repo) | {'Exception', 'BaseException'}
+    n = 0
+    for f in repo.all_functions():
+        if not f.module.name.startswith('rsocket.transports'):
+            continue
+        for node in walk_local(f.node):
+            if not (isinstance(node, ast.If) and isinstance(node.test, ast.Call) and
+                    isinstance(node.test.func, ast.Name) and node.test.func.id == 'isinstance' and
+                    'ConnectionTerminated' in ast.unparse(node.test)):
+                continue
+            n += 1
+            temps = {t.id for s in node.body if isinstance(s, ast.Assign) and isinstance(s.value, ast.Call) and
+                     isinstance(s.value.func, ast.Name) and s.value.func.id in exc_names
+                     for t in s.targets if isinstance(t, ast.Name)}
+            direct = [s for s in node.body if isinstance(s, ast.Expr) and isinstance(s.value, ast.Call) and
+                      isinstance(s.value.func, ast.Attribute) and s.value.func.attr in ('put_nowait', 'put') and
+                      s.value.args and (
+                          isinstance(s.value.args[0], ast.Call) and isinstance(s.value.args[0].func, ast.Name) and
+                          s.value.args[0].func.id in exc_names or
+                          isinstance(s.value.args[0], ast.Name) and s.value.args[0].id in temps)]
+            rep.add(rule, '%s / every termination of the connection is signalled to the listener' % f.short, f,
+                    bool(direct), 'the ConnectionTerminated branch queues the marker unconditionally' if direct else
+                    'the ConnectionTerminated branch does not queue the end-of-connection marker on every path: a close '
+                    'that takes the other path leaves the receiver waiting, the close sequence never runs')
+    rep.require(rule, 'ConnectionTerminated branches in the transports', n, 1)
